@@ -51,11 +51,13 @@ def _case(draw, focus, tier="quick"):
             kind, regime, filled = "trough", "roomy", True  # a well-filled supply trough next to tight labware
         labs.append(draw(lab_spec(["T1", "P2"][i], kind=kind, max_rows=8, max_cols=6, regime=regime, grid=bool(q), q=q or 0.01, allow_names=False, pos=(10 + i, 1 + i), filled=filled)))
     vs = vs_mixed(q)
-    anyop = st.one_of(op_direct(vs), op_direct(vs), op_transfer(vs), op_distribute(vs), op_evo(vs))
+    # mixing in place: a transfer whose source and destination are the same wells of the same labware
+    mix = op_transfer(vs, max_n=3).map(lambda o: dict(o, dst=o["src"], dw=o["sw"]))
+    anyop = st.one_of(op_direct(vs), op_direct(vs), op_transfer(vs), op_distribute(vs), op_evo(vs), mix)
     if focus in ("add", "remove", "aspirate", "dispense"):
         fop = op_direct(vs, kinds=(focus,))
     elif focus == "transfer":
-        fop = op_transfer(vs)
+        fop = st.one_of(op_transfer(vs), op_transfer(vs), mix)
     elif focus == "distribute":
         fop = op_distribute(vs)
     else:
